@@ -706,6 +706,7 @@ class Solver:
                     new_args[key] = self.default_params[key]
                 new_value = func(**new_args)
             start_dic.update({name: new_value})
+        self.param_dic.clear()
         self.param_dic.update(self.default_params)
         self.param_dic.update(update_dic)
         self.param_dic.update(start_dic)
